@@ -251,21 +251,16 @@ Definition wr_ok (h : heap) (w : wr) : Prop :=
   exists b, znth h (w_id w) = Some b /\ blive b = true /\
             0 <= w_off w /\ 0 <= w_len w /\ w_off w + w_len w <= zlen (bcells b).
 
-Lemma finish_spec s dst p ulen newlen c nb :
-  znth (hp s) dst = Some (mkblk c true) ->
-  src_read (hp s) p dst ulen = Some (map Some nb) -> zlen nb = ulen -> ulen + 1 <= zlen c ->
-  exists c',
-    set_finish s dst p ulen newlen =
-      SOk (mkst newlen (ilen0 s) (if dst =? 0 then None else pptr s)
-                (hset (hp s) dst (mkblk c' true)) (reqs s) (elog s)) 1
-          [mkwr dst 0 ulen; mkwr dst ulen 1]
-    /\ holds c' nb /\ zlen c' = zlen c.
+Lemma fill_spec h dst p ulen c nb :
+  znth h dst = Some (mkblk c true) ->
+  src_read h p ulen = Some (map Some nb) -> zlen nb = ulen -> ulen + 1 <= zlen c ->
+  exists c', fill h dst p ulen = Some (hset h dst (mkblk c' true)) /\ holds c' nb /\ zlen c' = zlen c.
 Proof.
   intros Hz Hrd Hl Hc. pose proof (znth_range _ _ _ Hz) as Hr. pose proof (zlen_nonneg nb) as Hn.
   exists (cstore (cstore c 0 (map Some nb)) ulen [Some 0]).
   assert (L1 : zlen (cstore c 0 (map Some nb)) = zlen c) by (apply zlen_cstore; rewrite ?zlen_map; lia).
   split; [|split].
-  - unfold set_finish. rewrite Hrd. unfold hwrite.
+  - unfold fill. rewrite Hrd. unfold hwrite.
     rewrite (hstore_ok _ _ c) by (try assumption; rewrite ?zlen_map; lia).
     rewrite (hstore_ok _ _ (cstore c 0 (map Some nb))) by
       (try (apply znth_hset_eq; lia); cbn [map zlen]; lia).
@@ -274,58 +269,62 @@ Proof.
   - rewrite zlen_cstore by (cbn [zlen]; lia). assumption.
 Qed.
 
+Lemma finish_spec s dst p ulen newlen c nb :
+  znth (hp s) dst = Some (mkblk c true) ->
+  src_read (hp s) p ulen = Some (map Some nb) -> zlen nb = ulen -> ulen + 1 <= zlen c ->
+  exists c',
+    set_finish s dst p ulen newlen =
+      SOk (mkst newlen (ilen0 s) (if dst =? 0 then None else pptr s)
+                (hset (hp s) dst (mkblk c' true)) (reqs s) (elog s)) 1
+          [mkwr dst 0 ulen; mkwr dst ulen 1]
+    /\ holds c' nb /\ zlen c' = zlen c.
+Proof.
+  intros Hz Hrd Hl Hc. destruct (fill_spec _ _ _ _ _ _ Hz Hrd Hl Hc) as (c' & Hf & Hh & Hlc).
+  exists c'. split; [|split; assumption]. unfold set_finish. rewrite Hf. reflexivity.
+Qed.
+
 (* ------------------------------------------------------------------ the source of a setter *)
 (* [src_ok s bs0 p ulen nb]: the pointer [p] passed to a setter of the node [s] (holding bs0)
    has [ulen] readable bytes, which are [nb]: either memory outside the node, or the node's own
-   current buffer at offset [off], inside the contents, and either exactly at the start
-   (in-place truncation) or far enough in for the copy not to overlap its destination *)
+   current buffer at offset [off]: any range inside the contents and their terminator,
+   overlapping the destination or not *)
 Definition src_ok (s : st) (bs0 : list byte) (p : sptr) (ulen : Z) (nb : list byte) : Prop :=
   zlen nb = ulen /\
   match p with
   | PExt src => ulen <= zlen src /\ nb = zfirstn ulen src
-  | PHeap id off => comp s = Some id /\ 0 <= off /\ off + ulen <= zlen bs0 /\
-                    (off = 0 \/ ulen <= off) /\ nb = zfirstn ulen (zskipn off bs0)
+  | PHeap id off => comp s = Some id /\ 0 <= off /\ off + ulen <= zlen bs0 + 1 /\
+                    nb = zfirstn ulen (zskipn off (bs0 ++ [0]))
   end.
 
-Lemma zskipn_map_app {A} (f : list A) off X : 0 <= off <= zlen f -> zskipn off (f ++ X) = zskipn off f ++ X.
-Proof. intros H. apply zskipn_app_l. assumption. Qed.
-
-(* reading the node's own bytes through the heap *)
+(* reading the node's own bytes (and terminator) through the heap *)
 Lemma hread_holds h id c bs0 off n :
-  znth h id = Some (mkblk c true) -> holds c bs0 -> 0 <= off -> 0 <= n -> off + n <= zlen bs0 ->
-  hread h id off n = Some (map Some (zfirstn n (zskipn off bs0))).
+  znth h id = Some (mkblk c true) -> holds c bs0 -> 0 <= off -> 0 <= n -> off + n <= zlen bs0 + 1 ->
+  hread h id off n = Some (map Some (zfirstn n (zskipn off (bs0 ++ [0])))).
 Proof.
   intros Hz Hh Ho Hn Hl. pose proof (holds_len _ _ Hh) as Hc.
   rewrite (hread_ok _ _ c) by (try assumption; lia). f_equal.
-  rewrite (holds_split _ _ Hh) at 1.
-  rewrite zskipn_app_l by (rewrite zlen_map; lia).
-  rewrite zfirstn_app_l by (rewrite zlen_zskipn, zlen_map; lia).
+  assert (Hs : c = map Some (bs0 ++ [0]) ++ zskipn (zlen bs0 + 1) c).
+  { rewrite <- Hh. symmetry. apply zfirstn_zskipn. }
+  rewrite Hs at 1.
+  assert (L : zlen (map Some (bs0 ++ [0])) = zlen bs0 + 1) by (rewrite zlen_map, zlen_app; reflexivity).
+  rewrite zskipn_app_l by lia.
+  rewrite zfirstn_app_l by (rewrite zlen_zskipn; lia).
   rewrite map_zfirstn, map_zskipn. reflexivity.
 Qed.
 
-Lemma src_read_ok s bs0 p ulen nb h dst :
+Lemma src_read_ok s bs0 p ulen nb h :
   src_ok s bs0 p ulen nb -> 0 <= ulen ->
   (forall id off, p = PHeap id off ->
      ulen = 0 \/ exists c, znth h id = Some (mkblk c true) /\ holds c bs0) ->
-  src_read h p dst ulen = Some (map Some nb).
+  src_read h p ulen = Some (map Some nb).
 Proof.
   intros (Hl & Hp) Hu Hblk. destruct p as [src|id off]; cbn [src_read].
   - destruct Hp as (Hs & ->). assert (E : (ulen >? zlen src) = false) by lia. rewrite E. reflexivity.
-  - destruct Hp as (_ & Ho & Hin & Hov & ->).
+  - destruct Hp as (_ & Ho & Hin & ->).
     destruct (ulen =? 0) eqn:E0.
     + assert (ulen = 0) by lia. subst ulen. rewrite zfirstn_nonpos by lia. reflexivity.
-    + assert (E1 : ((id =? dst) && (0 <? off) && (off <? ulen)) = false) by lia. rewrite E1.
-      destruct (Hblk id off eq_refl) as [H0|(c & Hz & Hh)]; [lia|].
+    + destruct (Hblk id off eq_refl) as [H0|(c & Hz & Hh)]; [lia|].
       apply (hread_holds _ _ c); try assumption; lia.
-Qed.
-
-Lemma wr_ok_finish h dst c' ulen :
-  0 <= dst < zlen h -> 0 <= ulen -> ulen + 1 <= zlen c' ->
-  Forall (wr_ok (hset h dst (mkblk c' true))) [mkwr dst 0 ulen; mkwr dst ulen 1].
-Proof.
-  intros Hd Hu Hc.
-  repeat constructor; exists (mkblk c' true); cbn [w_id w_off w_len blive bcells];
-    (split; [apply znth_hset_eq; lia|]); repeat split; lia.
 Qed.
 
 (* ------------------------------------------------------------------ building the invariant *)
